@@ -199,3 +199,106 @@ Example pda_search_demo :
   find_pda_loop (fun x => [nth 0 (rev (firstn 2 x)) 0]) (fun h => 253 <? nth 0 h 0) [7] [9] 255 255 = Ok [253].
 Proof. vm_compute. reflexivity. Qed.
 Print Assumptions pda_search_demo.
+
+(* ===== linked to the concrete codec models ===== *)
+(* The address encoders, the Solana address decoder and UTF-8 were Section variables of the C20 models; here they
+   are the concrete models (Model/LinkAddr.v): P2PKH = Base58Check of Model/Base58.v over hash160, P2WPKH = the SegWit
+   codec of Model/Bech32.v, SolAddrDecoder = Base58 + length + key test of Model/AddrB58.v.  The parameters the source
+   looks up in the coin table (net versions, HRP, key mode) are regenerated (Gen/LinkConsts.v) and their
+   well-formedness is re-proved on every run ([link_parameters_wf]).
+   Oracles that remain: sha256, ripemd160, the secp256k1 group / Bip32 object, Ed25519PublicKey.IsValidBytes. *)
+From BU Require Import Gen.AddrConsts Gen.AddrTextConsts Gen.LinkConsts Model.AddrB58 Model.AddrText Model.Bech32 Model.LinkAddr.
+From BU Require Lemmas.Bech32 Lemmas.LinkElectrum.
+
+Definition hash_law (h : list N -> list N) (n : nat) : Prop := (forall x, length (h x) = n) /\ (forall x, bytes_ok (h x)).
+
+Theorem link_parameters_wf :
+  electrum_v1_addr_compressed = false /\ p2pkh_default_compressed = true /\
+  bytes_ok bip38_addr_net_ver /\ bytes_ok electrum_v1_addr_net_ver /\ bytes_ok electrum_v2_std_addr_net_ver /\
+  Lemmas.Bech32.hrp_enc_ok electrum_v2_segwit_addr_hrp.
+Proof. exact LinkElectrum.link_consts_ok. Qed.
+Print Assumptions link_parameters_wf.
+
+(* Electrum v1: the address is Base58Check(net version || hash160(04 || X || Y)) of the derived public key and the
+   library's P2PKH decoder gives that hash160 back *)
+Theorem electrum_v1_address_concrete : forall sha256 ripemd160 G base smul add is_inf ser_c ser_u w c i a,
+  hash_law sha256 32 -> hash_law ripemd160 20 ->
+  v1c_get_address sha256 ripemd160 G base smul add is_inf ser_c ser_u w c i = Ok a ->
+  exists P, v1_get_public_key sha256 G base smul add is_inf ser_u w c i = Ok P /\
+    a = check_encode b58_alph_btc b58_radix b58_cklen sha256 (electrum_v1_addr_net_ver ++ ripemd160 (sha256 (ser_u P))) /\
+    p2pkh_decode sha256 b58_alph_btc electrum_v1_addr_net_ver a = Ok (ripemd160 (sha256 (ser_u P))).
+Proof.
+  intros sha256 ripemd160 G base smul add is_inf ser_c ser_u w c i a [S1 S2] [R1 R2].
+  exact (LinkElectrum.v1_get_address_c sha256 ripemd160 S1 S2 R1 R2 G base smul add is_inf ser_c ser_u w c i a).
+Qed.
+Print Assumptions electrum_v1_address_concrete.
+
+(* Electrum v2 standard: P2PKH of the compressed child key *)
+Theorem electrum_v2_std_address_concrete : forall sha256 ripemd160 obj pub_of (o : res obj) a,
+  hash_law sha256 32 -> hash_law ripemd160 20 ->
+  v2c_std_address sha256 ripemd160 obj pub_of o = Ok a ->
+  exists x, o = Ok x /\ v2c_std_decode sha256 a = Ok (ripemd160 (sha256 (pub_of x))).
+Proof.
+  intros sha256 ripemd160 obj pub_of o a [S1 S2] [R1 R2].
+  exact (LinkElectrum.v2_std_address_c sha256 ripemd160 S1 S2 R1 R2 obj pub_of o a).
+Qed.
+Print Assumptions electrum_v2_std_address_concrete.
+
+(* Electrum v2 SegWit: the SegWit encoder never refuses, and the address decodes (witness version 0) to the
+   hash160 of the compressed child key *)
+Theorem electrum_v2_segwit_address_concrete : forall sha256 ripemd160 obj pub_of,
+  hash_law sha256 32 -> hash_law ripemd160 20 ->
+  (forall x : obj, exists a, v2c_segwit_address sha256 ripemd160 obj pub_of (Ok x) = Ok a) /\
+  (forall (o : res obj) a, v2c_segwit_address sha256 ripemd160 obj pub_of o = Ok a ->
+     exists x, o = Ok x /\ v2c_segwit_decode a = Ok (ripemd160 (sha256 (pub_of x)))).
+Proof.
+  intros sha256 ripemd160 obj pub_of [S1 S2] [R1 R2].
+  exact (conj (LinkElectrum.v2_segwit_address_total sha256 ripemd160 S1 S2 R1 R2 obj pub_of)
+              (LinkElectrum.v2_segwit_address_c sha256 ripemd160 S1 S2 R1 R2 obj pub_of)).
+Qed.
+Print Assumptions electrum_v2_segwit_address_concrete.
+
+(* SolAddrDecoder accepts exactly the Base58 spellings of 32-byte strings that pass the key test *)
+Theorem sol_decode_accepts_iff : forall on_curve s p, splc_sol_decode on_curve s = Ok p <->
+  (decode b58_alph_btc b58_radix s = Ok p /\ length p = 32%nat /\ on_curve p = true).
+Proof. exact LinkElectrum.sol_decode_ok_iff. Qed.
+Print Assumptions sol_decode_accepts_iff.
+
+(* end to end: what FindPda returns is the Base58 text of a 32-byte off-curve hash, and therefore the library's
+   own Solana address decoder refuses it (a PDA cannot be passed back as a wallet to GetAssociatedTokenAddress) *)
+Theorem pda_is_not_a_sol_address : forall sha256 on_curve seeds program_id a, hash_law sha256 32 ->
+  splc_find_pda sha256 on_curve seeds program_id = Ok a ->
+  exists h, decode b58_alph_btc b58_radix a = Ok h /\ a = encode b58_alph_btc b58_radix h /\ length h = 32%nat /\
+            on_curve h = false /\ splc_sol_decode on_curve a = Err ValueError.
+Proof.
+  intros sha256 on_curve seeds program_id a [S1 S2].
+  exact (LinkElectrum.pda_is_not_a_sol_address sha256 on_curve S1 S2 seeds program_id a).
+Qed.
+Print Assumptions pda_is_not_a_sol_address.
+
+Theorem find_pda_spec_concrete : forall sha256 on_curve seeds program_id prog,
+  (length seeds <= 16)%nat -> Forall (fun s => (length s <= 32)%nat) seeds ->
+  decode b58_alph_btc b58_radix program_id = Ok prog -> length prog = 32%nat -> on_curve prog = true ->
+  splc_find_pda sha256 on_curve seeds program_id =
+    (h <- find_pda_loop sha256 on_curve (concat seeds) prog 255 255 ;; Ok (encode b58_alph_btc b58_radix h)).
+Proof. exact LinkElectrum.find_pda_spec_c. Qed.
+Print Assumptions find_pda_spec_concrete.
+
+(* the associated token account: of the seven premises of [ata_formula] two remain (wallet and mint are accepted
+   addresses); the program-id premises are computed from the source strings, up to the key test (an oracle) *)
+Theorem ata_formula_concrete : forall sha256 on_curve wallet mint w m,
+  splc_sol_decode on_curve wallet = Ok w -> splc_sol_decode on_curve mint = Ok m ->
+  on_curve LinkElectrum.ata_program_bytes = true -> on_curve LinkElectrum.token_program_bytes = true ->
+  splc_get_ata sha256 on_curve wallet mint =
+    (h <- find_pda_loop sha256 on_curve (w ++ LinkElectrum.token_program_bytes ++ m) LinkElectrum.ata_program_bytes 255 255 ;;
+     Ok (encode b58_alph_btc b58_radix h)).
+Proof. exact LinkElectrum.ata_formula_c. Qed.
+Print Assumptions ata_formula_concrete.
+
+Theorem spl_program_ids_decode :
+  decode b58_alph_btc b58_radix spl_def_program_id = Ok LinkElectrum.ata_program_bytes /\
+  length LinkElectrum.ata_program_bytes = 32%nat /\
+  decode b58_alph_btc b58_radix spl_def_token_program_id = Ok LinkElectrum.token_program_bytes /\
+  length LinkElectrum.token_program_bytes = 32%nat.
+Proof. exact LinkElectrum.program_ids_decode. Qed.
+Print Assumptions spl_program_ids_decode.
